@@ -88,6 +88,9 @@ def solve_tiling(blocks, R, C, free_translation, budget=NODE_BUDGET):
     return (1, [list(ch) for ch in choice]) if ok else (0, [])
 
 
+INJ_PROPS = ["C03", "C04", "C05", "C06", "C07", "C09", "C12"]
+
+
 class Adapter(EnvAdapter):
     name = "FlatPack"
     props = ("C01", "C03", "C04", "C05", "C06", "C08", "C09", "C10", "C11", "C12")
@@ -122,6 +125,9 @@ class Adapter(EnvAdapter):
                 c("r23_cell", "random", 2, 3, "cell", episodes=4, probe_cap=20),        # 5 x 7 grid
                 c("toyrot_cell", "toy_rot", 2, 2, "cell", episodes=4, probe_cap=24),
                 c("toynorot_block", "toy_norot", 2, 2, "block", episodes=4, probe_cap=24),
+                # INJ: every continuing state of the 1 x 2 TLC model (all cut instances, both rotations, any block placed)
+                c("inj12_cell", "random", 1, 2, "cell", inject=("MC_FlatPack", "MC_FlatPack_quick.cfg"), episodes=0, max_steps=1,
+                  post_terminal=0, probe_cap=24, policies=["masked"], limit=300, props=INJ_PROPS),
                 # more than 127 blocks (identifiers up to 132 on the grid), highest identifiers first; no probes
                 c("r12_11_block", "random", 12, 11, "block", episodes=1, max_steps=5, probe_every=0, policies=["high_first"],
                   post_terminal=0, props=["C03", "C06", "C07", "C09"]),
@@ -141,6 +147,10 @@ class Adapter(EnvAdapter):
             c("r43_block", "random", 4, 3, "block", episodes=16, probe_cap=20),
             c("r15_cell", "random", 1, 5, "cell", episodes=20, probe_cap=30),
             c("r66_cell", "random", 6, 6, "cell", episodes=3, probe_cap=6, policies=["solution", "mostly_masked"]),
+            c("inj12_cell", "random", 1, 2, "cell", inject=("MC_FlatPack", "MC_FlatPack_thorough.cfg"), episodes=0, max_steps=2,
+              post_terminal=0, probe_cap=24, policies=["masked"], limit=3000, props=INJ_PROPS),
+            c("inj21_block", "random", 2, 1, "block", inject=("MC_FlatPack", "MC_FlatPack_thorough_21.cfg"), episodes=0, max_steps=2,
+              post_terminal=0, probe_cap=24, policies=["masked"], limit=3000, props=INJ_PROPS),
             # more than 127 blocks (identifiers up to 132 on the grid), highest identifiers first; no probes
             c("r12_11_block", "random", 12, 11, "block", episodes=1, max_steps=8, probe_every=0, policies=["high_first"],
               post_terminal=0, props=["C03", "C06", "C07", "C09"]),
@@ -163,7 +173,51 @@ class Adapter(EnvAdapter):
             gen = ToyFlatPackGeneratorWithRotation()
         else:
             gen = ToyFlatPackGeneratorNoRotation()
-        return FlatPack(generator=gen, reward_fn=CellDenseReward() if reward == "cell" else BlockDenseReward())
+        rf = CellDenseReward() if reward == "cell" else BlockDenseReward()
+        if "inject" in cfg:
+            return self._make_injected(cfg, gen, rf)
+        return FlatPack(generator=gen, reward_fn=rf)
+
+    def _make_injected(self, cfg, gen, rf):
+        """INJ: every state of the TLC model from which an episode continues (every instance of the cut family, every set of
+        blocks already placed anywhere the rules allow) as a start state; mask, observation and step are the real ones."""
+        import jax.numpy as jnp
+
+        from harness import inject
+        from jumanji.environments.packing.flat_pack.env import FlatPack
+        from jumanji.types import restart
+
+        inject.need(FlatPack, "_make_action_mask", "_observation_from_state")
+        states, _ = inject.dump_states(cfg["inject"][0], cfg["inject"][1], var=None, limit=None)
+        live = {}
+        for st in states:
+            if not st["over"] and st["allLegal"]:
+                live.setdefault(repr(st["s"]), st["s"])
+        tab = inject.thin([live[k] for k in sorted(live)], cfg.get("limit"))
+        cfg["episodes"] = len(tab)
+        grids = np.array([t["grid"] for t in tab])
+        blocks = np.array([t["blocks"] for t in tab])
+        placed = np.array([t["placed_blocks"] for t in tab])
+        steps = np.array([t["step_count"] for t in tab])
+
+        class Injected(FlatPack):
+            def reset(self, key):
+                tpl, _ = super().reset(key)
+                j = key[1] % grids.shape[0]
+                like = lambda arr, t: jnp.asarray(arr)[j].astype(jnp.asarray(t).dtype).reshape(jnp.shape(t))      # noqa: E731
+                g, b, p = like(grids, tpl.grid), like(blocks, tpl.blocks), like(placed, tpl.placed_blocks)
+                state = inject.state_like(tpl, grid=g, blocks=b, placed_blocks=p, step_count=like(steps, tpl.step_count),
+                                          action_mask=self._make_action_mask(g, b, p))
+                return state, restart(observation=self._observation_from_state(state))
+
+        return Injected(generator=gen, reward_fn=rf)
+
+    def episode_key(self, cfg, ep, seed):
+        if "inject" not in cfg:
+            return None
+        from harness import inject
+
+        return inject.ep_key(ep)
 
     @staticmethod
     def _other(reward):
